@@ -62,6 +62,7 @@ def check(m, run):
     skel_drivers.c04(m, run)
     from .. import ops_common as oc
     oc.helper_alias_rules(m, run, 'helpers.knot_insertion')
+    skel_drivers.kir3(m, run, ('insert',))
     skel_drivers.ops2(m, run, 'insert_knot', 'knot_insertion', 1)     # every split is an insertion up to full multiplicity followed by a cut
     skel_drivers.c03_order(m, run)
     from .. import rules_state as rs
